@@ -259,8 +259,10 @@ theorem kotlin_import_empty_package :
 theorem kotlin_doc_line_break :
     wellBracketed C10Kotlin.K (Kotlin.comments 0 [s%" a\n)"]) = false := by decide
 example : Known_DocLineBreak [s%" a\n)"] = true := by decide
-theorem typescript_doc_terminator :
-    wellBracketed C10TypeScript.T (TypeScript.comments 0 [s%" a */ }"]) = false := by decide
+/-- formerly a witness (`*/` in doc text ended the TypeScript block comment); `write_comments` now
+escapes it (C15 repair), so the block is closed - kept as a regression -/
+theorem typescript_doc_terminator_repaired :
+    wellBracketed C10TypeScript.T (TypeScript.comments 0 [s%" a */ }"]) = true := by decide
 example : Known_DocTerminator [s%" a */ }"] = true := by decide
 
 /-! ## the partial theorems -/
